@@ -16,7 +16,13 @@ class _VMixin:
 
 
 class SubSubVertex(_VMixin, P.SubVertex):
-    pass
+    """its str() and format() differ from its repr(): a default rendering "by repr" must use repr"""
+
+    def __str__(self):
+        return "a vertex"
+
+    def __format__(self, spec):
+        return "a formatted vertex"
 
 
 P.VERTEX_CLASSES["SubSubVertex"] = SubSubVertex
@@ -203,10 +209,12 @@ def pyvis_probe(w, S, M, customizable, with_refunc, extra_attr):
     rf = (lambda e: f"e{w.n_link(e)}") if with_refunc else None
     res = {"err": "", "nodes": [], "edges": []}
     try:
+        # the caller's own Network options: whatever is asked for the network as a whole, arrows are per link
+        nk = (None, {"directed": True}, {"directed": False}, {"heading": "g"})[P.h(S["ends"], M, "nk") % 4]
         if customizable:
             net = EP.pyvis_render_customizable(uni, rvfunc=rv, refunc=rf)
         else:
-            net = EP.make_pyvis_net(uni, rvfunc=rv, refunc=rf)
+            net = EP.make_pyvis_net(uni, rvfunc=rv, refunc=rf, network_kwargs=nk)
         for nid in net.get_nodes():
             res["nodes"].append({"id": nid if isinstance(nid, int) else -1, "label": str(net.get_node(nid).get("label"))})
         for e in net.get_edges():
